@@ -12,7 +12,7 @@
    immutable values; that Go's cloneRequest copies the header map is checked by the harness's
    before/after snapshot of the caller's request). *)
 From HC Require Import Transport Spec.
-From HC.Proofs Require Import Paths ErrOnly FreshProofs DecisionProofs.
+From HC.Proofs Require Import Paths ErrOnly FreshProofs DecisionProofs ValidationProofs.
 Open Scope Z_scope.
 
 Theorem C02_local : forall q e now,
@@ -39,36 +39,11 @@ Theorem C02_mandatory_validation_outcome : forall ctx q rep,
   | RErr => handle_validation_response ctx q rep = Ret OErr
   | RResp r =>
       ((is_get (q_method q) && (p_status r =? 304)) = false) ->
-      Leaves (fun out => (exists r', out = OResp r' /\ p_status r' = p_status r /\ p_body r' = p_body r) \/
-                                    p_body_ok r = false)
-             (handle_validation_response ctx q rep)
+      Leaves (origin_answer r) (handle_validation_response ctx q rep)
   end.
 Proof.
-  intros ctx q rep Hns. unfold handle_validation_response. rewrite Hns. cbn [negb andb].
-  destruct rep as [|r]; [reflexivity|]. intros H304; rewrite H304; clear H304. cbv zeta.
-  destruct (can_store_response _ _ _).
-  - unfold store_response. destruct (normalize_vary _ _); [|constructor].
-    destruct (p_body_ok (with_hdr r _)) eqn:Eb; cbn [bind].
-    + apply LV_SetEntry, LV_SetRefs, LV_Ret. left; eexists; split; [reflexivity|]; cbn; auto.
-    + apply LV_SetRefs, LV_Ret. cbn in Eb. right; exact Eb.
-  - destruct (is_unsafe_method (q_method q) && is_non_error_status (p_status r)).
-    + unfold invalidate_cache. destruct (ref_ids _); [|constructor].
-      assert (Hd : forall ks done (c : list bytes -> prog outcome) P,
-                 (forall d, Leaves P (c d)) -> Leaves P (del_all ks done c)).
-      { induction ks as [|k ks IH]; intros done c P Hc; cbn; auto.
-        destruct (existsb _ _); auto. constructor; auto. }
-      apply Hd; intros d.
-      assert (Hl : forall hs done (c : list bytes -> prog outcome) P,
-                 (forall d, Leaves P (c d)) -> Leaves P (invalidate_locations hs (q_url q) (p_hdr r) done c)).
-      { induction hs as [|hn hs IH]; intros done c P Hc; cbn [invalidate_locations]; auto.
-        destruct (hget hn (p_hdr r)); [apply IH, Hc|].
-        destruct (parse_url _); [|constructor].
-        destruct (same_origin _ _); [|apply IH, Hc].
-        unfold get_refs_clean; constructor; intros ans. destruct (ref_ids _); [|constructor].
-        apply Hd; intros d'; apply IH, Hc. }
-      apply Hl; intros d'. apply Hd; intros d''.
-      constructor. left; eexists; split; [reflexivity|]; cbn; auto.
-    + constructor. left; eexists; split; [reflexivity|]; cbn; auto.
+  intros ctx q [|r] H; [apply hvr_error_no_fallback; exact H|].
+  intros H3; apply hvr_origin_answer; auto.
 Qed.
 Print Assumptions C02_mandatory_validation_outcome.
 
